@@ -196,21 +196,27 @@ def run_lifecycle(ctx, prop, mc_plan, ex_plan, level, assumptions, replay=None, 
     Replays re-execute nothing abstractly: a replay file holds the concrete step; it is re-run by
     exploring from scratch with the same seed and bounds (the driver is deterministic given the seed)."""
     mc_out = []
+    import time as _time
     for kw in mc_plan:
+        _t0 = _time.time()
         out = model_check(ctx, **kw)
         m = re.search(r"(\d+) states generated, (\d+) distinct states found", out)
-        mc_out.append({"config": {k: v for k, v in kw.items() if k not in ("workers", "timeout")},
+        mc_out.append({"config": {k: v for k, v in kw.items() if k not in ("workers", "timeout")}, "wall_s": round(_time.time() - _t0, 1),
                        "distinct_states": int(m.group(2)) if m else 0, "states_generated": int(m.group(1)) if m else 0})
     all_lines, all_stats, total_failed = [], [], 0
     others_seen = {}
     for i, kw in enumerate(ex_plan):
         shape = kw.get("shape", "chain")
+        import time as _t
+        t0 = _t.time()
         lines, stats = explore(ctx, "ex%d" % i, **kw)
+        t1 = _t.time()
         failed = judge(ctx, lines, shape, "ex%d" % i)
+        t2 = _t.time()
         o = report(ctx, prop, lines, failed, shape)
         for k, v in o.items():
             others_seen[k] = others_seen.get(k, 0) + v
-        all_stats.append({"plan": kw, **sum_stats(stats)})
+        all_stats.append({"plan": kw, "explore_s": round(t1 - t0, 1), "judge_s": round(t2 - t1, 1), "lines": len(lines), **sum_stats(stats)})
         # keep only what evidence needs
         all_lines.append((len(lines), distinct_nontrivial(lines), sample_lines(lines)))
         total_failed += len(failed)
